@@ -88,46 +88,7 @@ def run(ctx):
 
     # ---------------- R2 index passing
     ctx.rule("C13.R2", "element-wise callers (via, where, map, filter, every, some) pass [item, index] exactly when the function's arity can accept 2, else [item]; reduce passes [acc, item, index] when it can accept 3, else [acc, item]; key functions (sort_by, group_by, count_by) and into / scalar via pass one argument", floor=14)
-    ELEMENTWISE = {"Via", "Where", "Map", "Filter", "Every", "Some"}
-    per_ctx = {}
-    shapes = {}
-    for fn, n, e, g in sites:
-        label = context_of(g, fn) or "Call"
-        idx = per_ctx.get((fn, label), 0)
-        per_ctx[(fn, label)] = idx + 1
-        key = "%s[%s]#%d" % (H.last(fn), label, idx)
-        a = deep_unhoist(S.norm(n["args"][1], e))
-        d = deep_unhoist(strip_wrappers(S.norm(n["recv"], e)))
-        in_loop = any(x[0] == "loop" for x in g)
-        shape = None
-        if a[0] == "if" and a[2][0] == "vec" and a[3][0] == "vec":
-            c = strip_wrappers(a[1])
-            n_hi, n_lo = len(a[2]) - 1, len(a[3]) - 1
-            flag_ok = c[0] == "call" and c[1] == "can_accept" and c[3] == ("lit", str(n_hi)) and strip_wrappers(c[2]) == ("call", "arity", ("try", d)) or \
-                (c[0] == "call" and c[1] == "can_accept" and c[3] == ("lit", str(n_hi)) and deep_unhoist(strip_wrappers(strip_wrappers(c[2])[2] if strip_wrappers(c[2])[0] == "call" and strip_wrappers(c[2])[1] == "arity" else ("?",))) == d)
-            last = a[2][-1]
-            idx_ok = last[0] == "ctor" and last[1] == "Number" and last[2][0] == "cast" and last[2][2][0] == "loopvar"
-            prefix_ok = a[2][1:-1] == a[3][1:]
-            shape = ("indexed", n_hi, bool(flag_ok), bool(idx_ok), bool(prefix_ok))
-        elif a[0] == "vec":
-            shape = ("plain", len(a) - 1)
-        elif label == "Call":
-            shape = ("spread-flattened arguments",)
-        shapes[key] = shape
-        if label in ELEMENTWISE and in_loop and fn in (BINOP, BCALL) and not (fn == BINOP and shape == ("plain", 1) and label == "Via"):
-            ok = None if shape is None else (shape[0] == "indexed" and shape[1] == 2 and all(shape[2:]))
-            ctx.inst("C13.R2", key, ok, "argument list %s -> %s (want [item, Number(idx)] iff arity().can_accept(2), else [item])" % (S.show(a)[:160], shape), H.loc(n))
-        elif label == "Reduce":
-            ok = None if shape is None else (shape[0] == "indexed" and shape[1] == 3 and all(shape[2:]))
-            ctx.inst("C13.R2", key, ok, "argument list -> %s (want [acc, item, Number(idx)] iff can_accept(3), else [acc, item])" % (shape,), H.loc(n))
-        elif label == "Call":
-            ctx.inst("C13.R2", key, True, "direct call: evaluated arguments, spreads flattened", H.loc(n))
-        else:
-            ok = None if shape is None else shape == ("plain", 1)
-            if ok is None and a[0] == "if" and len(a) >= 4 and a[2] != a[3]:
-                # `x into f` is f(x) for every f: an argument list chosen by a condition (on the arity, on the operand) is not that
-                ok = False
-            ctx.inst("C13.R2", key, ok, "argument list %s -> %s (one argument)" % (S.show(a)[:100], shape), H.loc(n))
+    call_protocol(ctx, "C13.R2", core, sites)
     # the item passed is the element at the loop position of the list operand
     # ---------------- R3 result handling
     ctx.rule("C13.R3", "where and filter keep the item exactly when as_bool(result) is true; via and map collect the result; every returns false on the first false and true at the end; some returns true on the first true and false at the end; reduce threads the accumulator from the initial value", floor=7)
@@ -306,3 +267,50 @@ def this_pairing(ctx, rid, core, sites=None):
             ok, why = None, "definition is not a direct get_function_def(..) result: %s" % S.show(d)[:100]
         ctx.inst(rid, key, ok, why, H.loc(n))
 
+
+def call_protocol(ctx, rid, core, sites=None):
+    """which arguments each caller of FunctionDef::call passes (shared with C14: key functions of sort_by / group_by / count_by get the element alone)"""
+    if sites is None:
+        S.TEMPLATES = None
+        S.INLINE = S.default_inline(core)
+        sites = call_sites(core)
+    ELEMENTWISE = {"Via", "Where", "Map", "Filter", "Every", "Some"}
+    per_ctx = {}
+    shapes = {}
+    for fn, n, e, g in sites:
+        label = context_of(g, fn) or "Call"
+        idx = per_ctx.get((fn, label), 0)
+        per_ctx[(fn, label)] = idx + 1
+        key = "%s[%s]#%d" % (H.last(fn), label, idx)
+        a = deep_unhoist(S.norm(n["args"][1], e))
+        d = deep_unhoist(strip_wrappers(S.norm(n["recv"], e)))
+        in_loop = any(x[0] == "loop" for x in g)
+        shape = None
+        if a[0] == "if" and a[2][0] == "vec" and a[3][0] == "vec":
+            c = strip_wrappers(a[1])
+            n_hi, n_lo = len(a[2]) - 1, len(a[3]) - 1
+            flag_ok = c[0] == "call" and c[1] == "can_accept" and c[3] == ("lit", str(n_hi)) and strip_wrappers(c[2]) == ("call", "arity", ("try", d)) or \
+                (c[0] == "call" and c[1] == "can_accept" and c[3] == ("lit", str(n_hi)) and deep_unhoist(strip_wrappers(strip_wrappers(c[2])[2] if strip_wrappers(c[2])[0] == "call" and strip_wrappers(c[2])[1] == "arity" else ("?",))) == d)
+            last = a[2][-1]
+            idx_ok = last[0] == "ctor" and last[1] == "Number" and last[2][0] == "cast" and last[2][2][0] == "loopvar"
+            prefix_ok = a[2][1:-1] == a[3][1:]
+            shape = ("indexed", n_hi, bool(flag_ok), bool(idx_ok), bool(prefix_ok))
+        elif a[0] == "vec":
+            shape = ("plain", len(a) - 1)
+        elif label == "Call":
+            shape = ("spread-flattened arguments",)
+        shapes[key] = shape
+        if label in ELEMENTWISE and in_loop and fn in (BINOP, BCALL) and not (fn == BINOP and shape == ("plain", 1) and label == "Via"):
+            ok = None if shape is None else (shape[0] == "indexed" and shape[1] == 2 and all(shape[2:]))
+            ctx.inst(rid, key, ok, "argument list %s -> %s (want [item, Number(idx)] iff arity().can_accept(2), else [item])" % (S.show(a)[:160], shape), H.loc(n))
+        elif label == "Reduce":
+            ok = None if shape is None else (shape[0] == "indexed" and shape[1] == 3 and all(shape[2:]))
+            ctx.inst(rid, key, ok, "argument list -> %s (want [acc, item, Number(idx)] iff can_accept(3), else [acc, item])" % (shape,), H.loc(n))
+        elif label == "Call":
+            ctx.inst(rid, key, True, "direct call: evaluated arguments, spreads flattened", H.loc(n))
+        else:
+            ok = None if shape is None else shape == ("plain", 1)
+            if ok is None and a[0] == "if" and len(a) >= 4 and a[2] != a[3]:
+                # `x into f` is f(x) for every f: an argument list chosen by a condition (on the arity, on the operand) is not that
+                ok = False
+            ctx.inst(rid, key, ok, "argument list %s -> %s (one argument)" % (S.show(a)[:100], shape), H.loc(n))
